@@ -23,7 +23,20 @@ def run(ctx):
     return [
         refine.refine_batch(ctx, ctx.size(120, 1500), force=FORCE, pid=PID, name="trace-refinement(Tree.step vs DemeTree.run)"),
         runs.monitor_batch(ctx, PID, ctx.size(250, 3000), force=FORCE),
+        # FarEnough behind a generator that offers SEVERAL candidates per parent, with several active siblings to
+        # keep away from: a verdict must stick to the candidate it was computed for
+        refine.refine_batch(ctx, ctx.size(30, 300), salt=41, force=_multi_far, pid=PID, name="trace-refinement(FarEnough over several candidates per parent)"),
+        runs.monitor_batch(ctx, PID, ctx.size(50, 500), salt=43, name="traced-runs-monitor-C09(FarEnough over several candidates per parent)", force=_multi_far),
     ]
+
+
+def _multi_far(rng):
+    sprout = {"kind": "custom", "generator": "nbc", "gen_dist_factor": float(rng.uniform(1, 2)), "trunc_factor": float(rng.choice([0.7, 1.0])),
+              "deme_filters": ["far"] + (["nbcfar"] if rng.random() < 0.3 else []), "far_enough": float(rng.uniform(0.3, 1.5)), "fil_dist_factor": float(rng.uniform(0.3, 1.0)),
+              "norm_ord": int(rng.choice([1, 2])), "check_only_active": bool(rng.random() < 0.5), "deme_limit": 3, "tree_filters": ["levellimit"], "level_limit": int(rng.integers(3, 6))}
+    pop = ["sea", "de", "shade", "ga"]
+    return {"nlev": int(rng.choice([2, 2, 3])), "engines": {0: pop, 1: pop + ["cma"], 2: ["sea", "de", "cma"]}, "sprout": sprout, "objective": "four",
+            "gsc": {"kind": "MetaepochLimit", "limit": int(rng.integers(5, 9))}}
 
 
 def search(ctx, broken):
